@@ -58,10 +58,16 @@ func runC16(cfg *vh.Config) error {
 	res := vh.NewResult("C16", cfg.Seed)
 	res.Rule = "generated valid j5s packages (2-6 objects/oneofs/enums with self and mutual recursion, every scalar/array/map/ref field type, 1-2 services x 1-4 methods over all five verbs with 0-2 path parameters of every scalar type, list methods over (recursive) item objects, methods without response, topics, entities) through the real chain compile -> PrintFile -> ReadFSImage -> APIFromImage -> APIFromSource -> J5 JSON -> BuildSwagger -> json.Marshal in crash-isolated workers; the same packages with a mutated service file (renamed service/request/response, removed or custom http rule, broken path); hand-built service names and method descriptors; hand-built source APIs with random cyclic schema graphs, odd paths and list responses. non-trivial = distinct generated input"
 	cf := &vh.CasesFile{
-		Header: "From Coq Require Import String List NArith.\nFrom J5V.lib Require Import Outcome.\nFrom J5V.model Require Import Pipeline PipelineCorr.",
+		Header: "From Coq Require Import String List NArith.\nFrom J5V.lib Require Import Outcome.\nFrom J5V.model Require Import Pipeline PipelineEntity PipelineCorr.",
 		Type:   "c16case",
 		Check:  "c16_check",
 	}
+	// the compiler side: compile_image(declaration) against the observed image (model/PipelineCompileCorr.v)
+	type compileRec struct {
+		term  string
+		input any
+	}
+	var compileCases []compileRec
 	distinct := vh.Distinct{}
 	caseNo := 0
 	addCase := func(stream, term string, input, impl any) {
@@ -71,7 +77,7 @@ func runC16(cfg *vh.Config) error {
 
 	// ------------------------------------------------------------ stream 1+2: generated packages, plain and mutated
 	rp := cfg.R.Fork("packages")
-	nPkg := cfg.Scale(70, 1500)
+	nPkg := cfg.Scale(70, 1200)
 	nAwk := cfg.Scale(10, 150)
 	type pk struct {
 		p   *gPackage
@@ -85,7 +91,7 @@ func runC16(cfg *vh.Config) error {
 		pks = append(pks, pk{p: p})
 		jobs = append(jobs, &Job{ID: len(jobs), Kind: "j5s", Pkg: p.Pkg, Files: map[string]string{strings.ReplaceAll(p.Pkg, ".", "/") + "/a.j5s": p.text()}})
 	}
-	nMut := cfg.Scale(45, 600)
+	nMut := cfg.Scale(45, 500)
 	for i := 0; i < nMut; i++ {
 		p := genPackage(rp, false)
 		sv := p.Services[0]
@@ -170,8 +176,12 @@ func runC16(cfg *vh.Config) error {
 			continue
 		}
 		sk, ck, wk := stageKind(r.status("source")), stageKind(r.status("client")), stageKind(r.status("swagger"))
-		term := fmt.Sprintf("CChain %s\n    %d %s\n    %d %s %s %d", coqImg(r.Img), sk, coqSrcObs(r.Src), ck, coqMethodObs(r.Methods), coqKeys(r.Schemas), wk)
+		term := fmt.Sprintf("CChainE %s %s\n    %d %s\n    %d %s %s %s %d", coqAnns(r.Img), coqImg(r.Img), sk, coqSrcObs(r.Src), ck, coqMethodObs(r.Methods), coqKeys(r.Schemas), coqEntObs(r.EntObs), wk)
 		addCase(stream, term, input, map[string]any{"stages": r.Stages, "methods": r.Methods, "schemas": r.Schemas})
+		if pks[i].mut == nil && r.status("source") == "ok" {
+			decl, extra := coqDeclPackage(p, r.Img)
+			compileCases = append(compileCases, compileRec{term: fmt.Sprintf("CCompile %s %s %s\n    %s", decl, vh.BoolTerm(extra), vh.BoolTerm(p.Awkward || p.FlatHost != ""), coqImg(r.Img)), input: input})
+		}
 		if pks[i].mut == nil {
 			res.Sample(map[string]any{"stream": stream, "package": p.Pkg, "services": len(p.Services), "schemas": len(p.Schemas), "entity": p.Entity != nil, "stages_ok": bad == nil}, 3)
 		} else {
@@ -284,7 +294,25 @@ func runC16(cfg *vh.Config) error {
 		res.Cases[i].Shard = fmt.Sprintf("cases_%d", i/per)
 		res.Cases[i].Pos = i % per
 	}
-	res.Shards = shards
+	// compile stream: its own shards
+	cc := &vh.CasesFile{
+		Header: "From Coq Require Import String List NArith.\nFrom J5V.lib Require Import Outcome.\nFrom J5V.model Require Import Pipeline PipelineCompile PipelineValid PipelineCompileCorr.",
+		Type:   "c16compile",
+		Check:  "c16_compile_check",
+	}
+	const perC = 20
+	for i, c := range compileCases {
+		caseNo++
+		res.Count("compile-image")
+		cc.Terms = append(cc.Terms, c.term)
+		res.Cases = append(res.Cases, vh.CaseRec{Case: caseNo, Stream: "compile-image", Shard: fmt.Sprintf("compile_%d", i/perC), Pos: i % perC, Input: c.input, Impl: "observed image"})
+	}
+	cshards, err := cc.WriteShards(cfg.Out, "compile", perC)
+	if err != nil {
+		return err
+	}
+	res.Evaluations = caseNo
+	res.Shards = append(shards, cshards...)
 	return res.Write(cfg.Out)
 }
 
